@@ -161,7 +161,8 @@ def real_pool_runs(n, seed):
         # the module must be importable, with its bodies, in a pool worker process
         header = ('import json\nfrom harness.modes import RealH\nH = RealH(json.loads(%r))\n' % json.dumps(spec))
         classes, _ = progen.build_classes(spec, None, as_file=True, header=header)
-        dag = build_dag(input_node=classes[spec['input']], output_node=classes[spec['output']])
+        with progen.det_uuids(spec):
+            dag = build_dag(input_node=classes[spec['input']], output_node=classes[spec['output']])
         graph, index_of = progen.dump_graph(dag, spec)
         progen.WORLD_INDEX['index_of'] = {**(progen.WORLD_INDEX.get('index_of') or {}), **index_of}
         if not fragment.in_fragment(graph)[0]:
